@@ -257,7 +257,8 @@ func calcCueItvls(segStart, segDur, utcStart, cueDur int) []cueItvl {
 	cueFullS := int(math.Ceil(float64(cueDur) * 0.001))
 	cueFullMS := cueFullS * 1000
 
-	for utcS := utcStart / cueFullMS; utcS <= (utcStart+segDur)/cueFullMS; utcS += cueFullS {
+	// utcS is a UTC second: the first multiple of cueFullS at or before the start, then every cueFullS seconds.
+	for utcS := utcStart / cueFullMS * cueFullS; utcS <= (utcStart+segDur)/1000; utcS += cueFullS {
 		cueStartMS := utcS * 1000
 		if cueStartMS == utcEndMS {
 			break
